@@ -90,6 +90,8 @@ def gen_plan(rng, tier):
                                                'server_error', 'protocol_error', 'unsupported', 'result', 'event', 'eof', 'rst', 'silence'])})
     for e in script:
         e['delay'] = rng.choice([None, None, 0.05, 0.4])
+        if e['kind'] in ('bad_credentials', 'server_error', 'protocol_error', 'unsupported') and rng.random() < 0.35:
+            e['then'] = rng.choice(['eof', 'eof', 'garbage'])
     return {'version': version, 'auth': auth, 'compression': compression, 'local': local, 'advertised': advertised,
             'cql_versions': cql_versions, 'want_cql': want_cql, 'none_rounds': none_rounds, 'script': script,
             'chunk_mode': rng.choice(['whole', 'mixed', 'bytes1']), 'lat': [0.0005, rng.choice([0.002, 0.02])],
@@ -248,6 +250,14 @@ class ScriptPeer(Peer):
             sim.probe('disconnect_in_handshake')
         elif k == 'silence':
             pass
+        if e.get('then') and k in ('bad_credentials', 'server_error', 'protocol_error', 'unsupported'):
+            # what servers do after refusing a handshake: close the connection (FIN after the error frame), or - a sloppy peer -
+            # some stray bytes right behind it; the failure the client reports is the one the server stated first
+            if e['then'] == 'eof':
+                pc.conn.server_close(latency=lat)
+            else:
+                pc.conn.server_send(b'\x00\x00\x00', latency=lat)
+            sim.probe('second_failure_after_refusal')
 
 
 def run_plan(plan, seed, choices=None):
